@@ -38,8 +38,9 @@ Offsets == <<0, 0, 5000, -20000>>
 Exps    == <<-4, 0, 3>>
 ScaleP  == <<0, 0, -20, 20>>
 
-MeanStyles == IF Thorough THEN <<"ci", "ops", "meanci", "from_iter", "extend", "append">>
-              ELSE <<"ci", "meanci", "extend", "append">>
+\* "ci_sparse": the one-shot call on a container whose by-reference iterator reports an inexact size hint
+MeanStyles == IF Thorough THEN <<"ci", "ops", "meanci", "from_iter", "extend", "append", "ci_sparse">>
+              ELSE <<"ci", "meanci", "extend", "append", "ci_sparse">>
 
 MeanCase(fl, ty, style, ki, li, data, first, role) ==
     [op |-> "mean.ci", fl |-> fl, ty |-> ty, style |-> style, conf |-> Conf(ki, li), li |-> li,
@@ -150,9 +151,9 @@ C06OffGrid(d) ==
 \* ---- C04 ----------------------------------------------------------------------------------------
 Seq1(xs) == [rle |-> [i \in DOMAIN xs |-> <<xs[i], 1>>], order |-> "asc"]
 RandSeq(g, n, off, p) == [i \in 1..n |-> V(off + Pick(g, 100 + i, -500, 500), p)]
-PairedStyles == IF Thorough THEN <<"ci", "extend", "extend_tuple", "append_pair">> ELSE <<"ci", "extend_tuple", "append_pair">>
-UnpairedStyles == IF Thorough THEN <<"ci", "extend", "from_iter", "extend_a_b", "append_a_b", "append_pair", "new", "mut">>
-                  ELSE <<"ci", "from_iter", "append_pair", "new">>
+PairedStyles == IF Thorough THEN <<"ci", "extend", "extend_tuple", "append_pair", "ci_sparse">> ELSE <<"ci", "extend_tuple", "append_pair", "ci_sparse">>
+UnpairedStyles == IF Thorough THEN <<"ci", "extend", "from_iter", "extend_a_b", "append_a_b", "append_pair", "new", "mut", "ci_sparse">>
+                  ELSE <<"ci", "from_iter", "append_pair", "new", "mut", "ci_sparse">>
 FlipK == <<1, 3, 2>>          \* exchanging the samples exchanges upper and lower
 TwoCase(fl, ty, style, ki, li, da, db, first, role) ==
     MeanCase(fl, ty, style, ki, li, da, first, role) @@ [datab |-> db]
@@ -240,7 +241,7 @@ C05Part(d) ==
             /\ Emit(MeanCase(fl, ty, "ci", ki, li, data, TRUE, "base") @@ [aux |-> TRUE])
             /\ Emit(MeanCase(fl, ty, "extend", ki, li, data, FALSE, "style") @@ [aux |-> FALSE])
             \* ... and through the StatisticsOps trait only (one-shot, fed in bulk, fed one by one)
-            /\ Emit(MeanCase(fl, ty, <<"ops", "ops_mean", "ops_append">>[(i % 3) + 1], ki, li, data, FALSE, "style") @@ [aux |-> FALSE])
+            /\ Emit(MeanCase(fl, ty, <<"ops", "ops_mean", "ops_append", "ci_sparse">>[(i % 4) + 1], ki, li, data, FALSE, "style") @@ [aux |-> FALSE])
   \* the same kind of samples at very large / very small magnitudes (reciprocal-space quantities near the
   \* machine epsilon are still ordinary numbers)
   /\ \A i \in 1..((ND + 3) \div 4) : \A ty \in {"f64", "f32"} : \A sc \in {-1, 1} :
